@@ -62,12 +62,12 @@ def signature(case, m, fl, o):
     if "read_parquet" in lo:
         return "read-parquet-text-disables-rewrite"
     if case["hdr"] and not fl["hdr_ctes_ok"]:
-        return "header-cte-names-need-with-blank"
+        return "header-cte-names-differ-from-permission-check"
     return "unclassified"
 
 
 def build_cases(rng, tier):
-    n_valid = 230 if tier == "quick" else 4000
+    n_valid = 230 if tier == "quick" else 2500
     cases, meta = [], []
     for sig, sql, hdrs in L.UNSUPPORTED:
         for h in hdrs:
@@ -114,6 +114,7 @@ def run(res, tier, seed):
     t1 = time.time()
     outs = L.run_cases("C16", cases, tier, files=files, views=L.reference_views())
     res.stage("impl_harness", t1)
+    res.cov["repairs_present_in_source"] = L.fix_names()
     t2 = time.time()
     cls, flags, ncross = L.eval_flags("C16", cases, outs, "Cases_" + tier)
     res.stage("model_eval", t2)
